@@ -533,6 +533,29 @@ pub fn run(ctx: &mut Ctx) {
     let n_sock = ctx.budget(300, 6_000);
     let mut rng = ctx.rng.fork(0xC03);
     let max_len = 61_440;
+    // long runs of one repeated element in front of (or instead of) a request: whatever is done per
+    // element (a recursion step, a shift, an allocation) must stay harmless 30000 times over
+    let units: [&[u8]; 8] = [b"\r\n", b"\n", b"\r", b" ", b"\r\n\r\n", b":\r\n", b"GET ", b"/"];
+    for (ui, unit) in units.iter().enumerate() {
+        for reps in [300usize, 3_000, 30_000] {
+            if (ui as u64 + reps as u64 / 300) % ctx.nshards != ctx.shard {
+                continue;
+            }
+            let mut b = Vec::with_capacity(unit.len() * reps + 64);
+            for _ in 0..reps {
+                if b.len() + unit.len() > max_len - 40 {
+                    break;
+                }
+                b.extend_from_slice(unit);
+            }
+            ctx.rep.count("long_runs_of_one_element");
+            pure_entry_points(ctx, &b, &[None]);
+            b.extend_from_slice(b"GET /x HTTP/1.1\r\nA: b\r\n\r\n");
+            pure_entry_points(ctx, &b, &[None, Some(b.len() + 1)]);
+            let ops = random_ops(&mut rng, b.len(), 80);
+            conn_case(ctx, &b, 51200, &ops);
+        }
+    }
     for i in 0..n_pure {
         let b = hostile_bytes(&mut rng, if i % 50 == 0 { max_len } else { 4096.min(max_len) });
         let len = b.len();
